@@ -212,7 +212,7 @@ class SlicesSplit(RewriteRuleClassBase):
             return check_result.fail("Last dimension is not known.")
         if last_dim != e1[0]:
             return check_result.fail("Last dimension is not equal to End1.")
-        if last_dim // 2 != b1[0]:
+        if last_dim % 2 != 0 or last_dim // 2 != b1[0]:
             return check_result.fail("Last dimension is not equal to Begin1.")
         return check_result
 
